@@ -146,7 +146,12 @@ class Indicator(_DomainObject):
     def _check_object_constraints(self):
         super(Indicator, self)._check_object_constraints()
 
-        errors = run_validator(self.get('pattern'), '2.0')
+        try:
+            errors = run_validator(self.get('pattern'), '2.0')
+        except Exception as exc:
+            # A failure inside the pattern validator is a refusal of the
+            # pattern, not an internal error of this library.
+            errors = [exc]
         if errors:
             raise InvalidValueError(self.__class__, 'pattern', str(errors[0]))
 
